@@ -61,7 +61,9 @@ func NewFileNode(path string, digest Digest) (FileNode, error) {
 //
 // This reverses FileNode.String().
 func ParseFileNode(s string) (FileNode, error) {
-	split := strings.Split(s, "  ")
+	// The digest cannot contain spaces, so the first "  " separates it from the path;
+	// the path itself may contain consecutive spaces.
+	split := strings.SplitN(s, "  ", 2)
 	if len(split) != 2 {
 		return nil, bufparse.NewParseError(
 			"file node",
